@@ -51,11 +51,28 @@ def cvc5_check(smt2, timeout_ms):
 
 
 def discharge(ob, timeout_ms=10000, use_cvc5=True):
+    """z3 with the given budget; an `unknown` is retried twice with another random seed and a doubled budget (solver
+    instability must not flip a verdict under load), then handed to cvc5 (thorough tier)"""
     if ob.result is not None:
         return ob
+    t_all = time.time()
+    for attempt, (seed, factor) in enumerate(((0, 1), (7, 2), (23, 3))):
+        _discharge_once(ob, int(timeout_ms * factor), use_cvc5 and attempt == 2, seed)
+        if ob.result != "open" or ob.kind in ("vacuity", "vacuity-exit"):
+            break
+        ob.result_prev = ob.detail
+        if attempt < 2:
+            ob.result = None
+    ob.ms = int(1000 * (time.time() - t_all))
+    return ob
+
+
+def _discharge_once(ob, timeout_ms, use_cvc5, seed):
     t0 = time.time()
     s = z3.Solver()
     s.set("timeout", timeout_ms)
+    if seed:
+        s.set("random_seed", seed)
     s.add(*ob.hyps)
     s.add(*E.strlit_axioms())
     if ob.kind in ("vacuity", "vacuity-exit"):
